@@ -492,10 +492,6 @@ std::string sqf::parser::preprocessor::impl_default::instance::handle_arg(::sqf:
         }
         switch (c)
         {
-            case '"':
-            string_mode = true;
-            sstream << c;
-            break;
             case 'a': case 'b': case 'c': case 'd': case 'e':
             case 'f': case 'g': case 'h': case 'i': case 'j':
             case 'k': case 'l': case 'm': case 'n': case 'o':
@@ -523,9 +519,16 @@ std::string sqf::parser::preprocessor::impl_default::instance::handle_arg(::sqf:
             if (inside_word)
             {
                 inside_word = false;
+                // A string that follows the word directly: the quote cannot be given back to the reader
+                // (it has switched to its string state), so it is written behind the word right here.
+                bool at_quote = c == '"';
                 auto word = local_fileinfo.content.substr(word_start, local_fileinfo.off - word_start - (!part_of_word ? 1 : 0));
                 auto res = try_get_macro(word);
-                if (res.has_value())
+                if (res.has_value() && res.value().is_callable() && at_quote)
+                { // Not followed by '(': not a call
+                    sstream << word;
+                }
+                else if (res.has_value())
                 {
                     if (res.value().is_callable() && !part_of_word)
                     { // Give back the character behind the name, it may be the '(' of the call.
@@ -538,7 +541,7 @@ std::string sqf::parser::preprocessor::impl_default::instance::handle_arg(::sqf:
                         return "";
                     }
                     sstream << handled;
-                    if (!res.value().is_callable() && !part_of_word)
+                    if (!res.value().is_callable() && !part_of_word && !at_quote)
                     {
                         local_fileinfo.move_back();
                     }
@@ -546,7 +549,7 @@ std::string sqf::parser::preprocessor::impl_default::instance::handle_arg(::sqf:
                 else if (param_map.find(word) != param_map.end())
                 {
                     sstream << param_map.at(word);
-                    if (!part_of_word)
+                    if (!part_of_word && !at_quote)
                     {
                         local_fileinfo.move_back();
                     }
@@ -554,14 +557,23 @@ std::string sqf::parser::preprocessor::impl_default::instance::handle_arg(::sqf:
                 else
                 {
                     sstream << word;
-                    if (!part_of_word)
+                    if (!part_of_word && !at_quote)
                     {
                         local_fileinfo.move_back();
                     }
                 }
+                if (at_quote)
+                {
+                    string_mode = true;
+                    sstream << c;
+                }
             }
             else
             {
+                if (c == '"')
+                {
+                    string_mode = true;
+                }
                 sstream << c;
             }
             part_of_word = false;
